@@ -99,7 +99,7 @@ def main():
     n, c, s = len(rows), sum(1 for r in rows if r[3] != "**none**"), sum(1 for r in rows if r[5])
     out = ["## 12. Seeded changes: which checks catch which", "",
            "Generated by `tools/design12.py` from `/verif/seeded/*/meta.json` (do not edit by hand).", "",
-           "The seeded changes were written by fresh sub-agents that were given only the text of one property and a",
+           "The seeded changes (three rounds of 40: two per property and round) were written by fresh sub-agents that were given only the text of one property and a",
            "scratch git worktree (nothing from /verif).  Each change compiles, passes the repository's tests that cover the",
            "files it touches, and needs something specific to manifest (a particular argument, history, parameter region or",
            "schedule: column *needs* of `seeded/SUMMARY.md`).  Each directory `seeded/<id>/` holds `patch.diff`, `demo.py`",
@@ -123,7 +123,12 @@ def main():
             "  and too lax for sign errors; they became one-sided bounds with explicit floors plus exact-instance replays.",
             "* *Scale and direction families.*  Absolute thresholds, swapped rtol/atol and time-direction bugs only show away",
             "  from O(1) magnitudes / forward time: every numeric contract is now run at several magnitudes and both directions.",
-            "* A check that hangs is a broken check: `harness/main.py` has a watchdog (see 11.5).", ""]
+            "* A check that hangs is a broken check: `harness/main.py` has a watchdog (see 11.5).",
+            "* *Rounds matter.*  The share of changes missed at first was 50 % in round 1, 32 % in round 2 and about 50 % in round 3 (whose",
+            "  prompt excluded the kinds of change used before): each round exposed input families, not single cases, and one remark of a",
+            "  seeding agent led to a genuine defect of the library (11.5).  Every one of the 120 changes is caught by the final checks",
+            "  (re-verified after the last change to any check; three are caught by a neighbouring property's check only: C03-4, C03-6 by",
+            "  C13, C09-5 by C08 and by C09's thorough tier).", ""]
     text = open("/verif/DESIGN.md").read()
     i = text.index("## 12. Seeded changes: which checks catch which")
     open("/verif/DESIGN.md", "w").write(text[:i] + "\n".join(out))
